@@ -52,7 +52,11 @@ def tlvItems (bs : B) : Outcome String :=
     match it.nextP with
     | .panic => .panic
     | .val after1 =>
-      let fused := ended && after1.isNone
+      -- polled twice more after the end, through the state-returning `step` (the state is left
+      -- unchanged on `None`, C11.step_none_stable): both polls must be `None`
+      let (p1, it1) := it.step
+      let (p2, _) := it1.step
+      let fused := ended && after1.isNone && p1.isNone && p2.isNone
       .val s!"[{",".intercalate parts.toList}] steps={steps} ended={b01 ended} fused={b01 fused} towned=1 sbytes=1"
 
 def v2Ok (h : Header) : Outcome String := do
@@ -60,11 +64,12 @@ def v2Ok (h : Header) : Outcome String := do
   let ab ← h.addressBytesP
   let tb ← h.tlvBytesP
   let items ← tlvItems tb
+  let disp ← h.displayP
   let ver := match h.version with | .two => "two"
   pure (s!"ok hdr={hexOf h.header} ver={ver} cmd={commandName h.command} tr={transportName h.protocol} " ++
     s!"fam={familyName h.addressFamily} addr={v2Addr h.addresses} alen={h.addresses.len} " ++
     s!"aempty={b01 h.addresses.isEmpty} len={h.len} length={length} empty={b01 h.isEmpty} " ++
-    s!"ab={hexOf ab} tb={hexOf tb} asb=1 tlvs={items} sec=1 disp={hexOf h.display} owned=1")
+    s!"ab={hexOf ab} tb={hexOf tb} asb=1 tlvs={items} sec=1 disp={hexOf disp} owned=1")
 
 def isIncV2 (r : Except ParseError Header) : Bool :=
   match r with
@@ -92,25 +97,19 @@ def opTlv (x : B) : Outcome String := do
 
 -- ---------------------------------------------------------------- builder / writer
 
-def intPayload? (kind : String) (v : String) : Option Payload :=
-  let unsigned (w : Nat) : Option Payload :=
-    match v.toNat? with
-    | some n => if n < 256 ^ w then some (.int w n) else none
-    | none => none
-  let signed (w : Nat) : Option Payload :=
-    match v.toInt? with
-    | some i =>
-      let half : Int := (256 ^ w : Nat) / 2
-      if -half ≤ i ∧ i < half then
-        some (.int w (if i < 0 then (256 ^ w : Nat) - i.natAbs else i.natAbs))
-      else none
-    | none => none
-  match kind with
-  | "u8" => unsigned 1 | "u16" => unsigned 2 | "u32" => unsigned 4 | "u64" => unsigned 8
-  | "u128" => unsigned 16 | "usize" => unsigned 8
-  | "i8" => signed 1 | "i16" => signed 2 | "i32" => signed 4 | "i64" => signed 8
-  | "i128" => signed 16 | "isize" => signed 8
+/-- Integer payloads go through the model's own type table (`IntTy`, `Payload.ofInt`: natural
+width, two's complement), about which `C20.int_signed` / `width_table` are proved. -/
+def intTy? : String → Option IntTy
+  | "u8" => some .u8 | "u16" => some .u16 | "u32" => some .u32 | "u64" => some .u64
+  | "u128" => some .u128 | "usize" => some .usize
+  | "i8" => some .i8 | "i16" => some .i16 | "i32" => some .i32 | "i64" => some .i64
+  | "i128" => some .i128 | "isize" => some .isize
   | _ => none
+
+def intPayload? (kind : String) (v : String) : Option Payload :=
+  match intTy? kind, v.toInt? with
+  | some t, some i => if t.inRange i then some (Payload.ofInt t i) else none
+  | _, _ => none
 
 def splitOnce (s : String) (sep : String) : Option (String × String) :=
   match s.splitOn sep with
